@@ -169,8 +169,8 @@ def _expr_simp(e):
         # int OP int => int
         if op in op_assoc + ['>>', '<<']:
             while len(args) >= 2 and isinstance(args[-1], ExprInt) and isinstance(args[-2], ExprInt):
-                i1 = args.pop()
                 i2 = args.pop()
+                i1 = args.pop()
                 if i1.get_size() != i2.get_size():
                     raise ValueError("diff size! %s %r %r"%(str(e),
                                                             i1.get_size(),
@@ -201,7 +201,7 @@ def _expr_simp(e):
         if op == '-' and len(args) == 1 and isinstance(args[0], ExprInt):
             return ExprInt(-args[0].arg)
         # A op 0 =>A
-        if op in ['+', '-', '|', "^", "<<", ">>", "<<<", ">>>"] and len(args) > 1:
+        if op in ['+', '|', "^", "<<", ">>", "<<<", ">>>"] and len(args) > 1:
             if isinstance(args[-1], ExprInt) and args[-1].arg == 0:
                 args.pop()
 
